@@ -346,12 +346,7 @@ def gen_cases(run, n_chains, max_ops):
     for i in range(n_chains):
         ver, ty, cid = pool[i % len(pool)] if i < 2 * len(pool) else rng.choice(pool)
         carrier = "object" if (i // len(pool)) % 2 == 0 and i < 2 * len(pool) else rng.choice(["object", "dict", "dict"])
-        for _try in range(20):
-            try:
-                o = g.obj(cid, optional_p=rng.choice([0.0, 0.3, 0.55]))
-                break
-            except ValueError:      # stixgen.timestamp moving 29 February into a common year
-                continue
+        o = g.obj(cid, optional_p=rng.choice([0.0, 0.3, 0.55]))
         o.pop("granular_markings", None)
         if rng.random() < 0.8:
             o.pop("object_marking_refs", None)
